@@ -579,5 +579,38 @@ def task_solver(ctx, repo):
                                   S.to_z3(g) if S.is_sym(g) else
                                   z3.BoolVal(bool(g)), m.path,
                                   extra=dict(backends=['z3'])))
+    # in parallel: the step is the reduction (minimum) over processors of
+    # each processor's local proposal; a processor WITHOUT a criterion must
+    # not constrain the others, so it contributes the documented sentinel
+    # 1e20 -- never the fixed step
+    glob = z3.Real('global_min')
+    sent = []
+    pm = SymObject(None, dict(update_time_steps=Native(
+        lambda e, s_, a, k, n: sent.append((a[0], list(s_.pc))) or glob)),
+        'pm')
+    obj = SymObject('Solver', dict(adaptive_timestep=True, integrator=integ,
+                                   in_parallel=True, pm=pm,
+                                   cfl=z3.Real('cfl')), 'self')
+    obj.module = m.name
+    ex = Executor(repo, m, qualname='Solver._compute_timestep',
+                  contracts={'Solver._get_undamped_timestep':
+                             CalleeContract(c_und)}, merge=False)
+    outs = ex.exec_function(fn, dict(self=obj))
+    for i, o in enumerate(outs):
+        obs.append(Obligation('solver.parallel.returns_global.%d' % i, o.pc,
+                              z3.BoolVal(S.is_sym(o.value) and
+                                         o.value.eq(glob)), m.path))
+    obs.append(Obligation('solver.parallel.reduces', [], z3.BoolVal(
+        len(sent) >= 2), m.path))
+    for i, (arg, pc) in enumerate(sent):
+        if isinstance(arg, _Opt):
+            g = z3.Not(res_none)
+        else:
+            g = z3.And(res_none, S.to_real(arg) >= z3.RealVal(10) ** 20) \
+                if S.is_num(arg) else z3.BoolVal(False)
+        obs.append(Obligation('solver.parallel.contribution.%d' % i, pc,
+                              S.to_z3(g) if S.is_sym(g) else z3.BoolVal(
+                                  bool(g)), m.path,
+                              extra=dict(backends=['z3'])))
     ctx.function(m, fn, 'Solver._compute_timestep', ex.dropped)
     ctx.prove('solver.keeps_fixed_step_on_none', obs, use_nf=False)
